@@ -114,6 +114,7 @@ class Task:
         self.interrupted = False
         self.ctx: dict = {}
         self.steps = 0
+        self.stalled_until = 0
 
 
 class Scheduler:
@@ -143,6 +144,9 @@ class Scheduler:
         self.stall_rng = None
         self.stall_prob = 0.0
         self.on_timeout = None
+        self.stallt_rng = None  # seeded "slow task" fault: the running task is not scheduled for a while
+        self.stallt_prob = 0.0
+        self.decisions = 0
         self.overlap = False  # two tasks of one phase were inside an operation at once
 
     # ------------------------------------------------------------------ set-up
@@ -211,7 +215,13 @@ class Scheduler:
 
     # ------------------------------------------------------------------ choosing / switching
     def _runnable(self):
-        return [t for t in self.tasks if t.state == "runnable"]
+        rs = [t for t in self.tasks if t.state == "runnable"]
+        if self.stallt_rng is not None:
+            # stalled tasks (fault: a slow node) are passed over while anybody else can run
+            awake = [t for t in rs if t.stalled_until <= self.decisions]
+            if awake:
+                return awake
+        return rs
 
     def _pick(self, cur: Task | None):
         """Next task to run, or None for the controller (quiescence / deadlock)."""
@@ -223,7 +233,7 @@ class Scheduler:
                 self.outcome = "quiescent"
             return None
         cur_idx = None
-        if cur is not None and cur.state == "runnable":
+        if cur is not None and cur.state == "runnable" and cur in rs:
             cur_idx = rs.index(cur)
         return rs[self.chooser.choose(len(rs), cur_idx, [t.tid for t in rs])]
 
@@ -280,6 +290,12 @@ class Scheduler:
         self.step += 1
         cur.steps += 1
         self.log.append((self.step, cur.name, kind, detail))
+        self.decisions += 1
+        if self.stallt_rng is not None and self.stallt_rng.random() < self.stallt_prob:
+            # the task stalls right here (before the operation it announced) for a seeded
+            # number of scheduling decisions; everybody else keeps running meanwhile
+            cur.stalled_until = self.decisions + self.stallt_rng.randint(5, 150)
+            self.count("task_stalled")
         if self.gc_rng is not None and self.gc_rng.random() < self.gc_prob:
             # the cyclic garbage collector runs at a moment of its own choosing: here
             import gc
